@@ -120,3 +120,30 @@ func (failingReader) Read([]byte) (int, error) { return 0, io.ErrUnexpectedEOF }
 
 // FailingReader returns a reader whose Read fails (a response body that breaks off).
 func FailingReader() io.Reader { return failingReader{} }
+
+// Secret marks s as a credential of the given class (1 client secret, 2 PKCE verifier, 4 refresh
+// token, 8 access token, 16 ID token) for the taint analysis of C14; TaintOf returns the classes
+// whose bytes s may carry. Natively: substring search for the registered values.
+type secretRec struct {
+	val   string
+	class int
+}
+
+var secrets []secretRec
+
+func Secret(s string, class int) string {
+	if s != "" {
+		secrets = append(secrets, secretRec{s, class})
+	}
+	return s
+}
+
+func TaintOf(s string) int {
+	t := 0
+	for _, r := range secrets {
+		if strings.Contains(s, r.val) {
+			t |= r.class
+		}
+	}
+	return t
+}
